@@ -409,6 +409,13 @@ Theorem C16_gen_tversky_loss :
 Proof. intros K Kf x0 x1 x2 x3 y0 y1 y2 y3 w0 w1 w2 w3 al be eps. exact (gen_tversky_loss_ok K Kf x0 x1 x2 x3 y0 y1 y2 y3 w0 w1 w2 w3 al be eps). Qed.
 Print Assumptions C16_gen_tversky_loss.
 
+Theorem C16_gen_tversky_forms :
+  forall (K : fld), is_field K -> forall (x0 x1 x2 x3 y0 y1 y2 y3 al be eps : K),
+  gen_tversky_p2t1 al be eps [x0; x1; x2; x3] [y0; y1] = [tversky_index al be eps [x2; x3] [y0; y1] None] /\
+  gen_tversky_p1t2 al be eps [x0; x1] [y0; y1; y2; y3] = [tversky_index al be eps [x0; x1] [y2; y3] None].
+Proof. intros K Kf x0 x1 x2 x3 y0 y1 y2 y3 al be eps. exact (gen_tversky_forms_ok K Kf x0 x1 x2 x3 y0 y1 y2 y3 al be eps). Qed.
+Print Assumptions C16_gen_tversky_forms.
+
 Theorem C16_gen_ncc :
   forall (K : fld), is_field K -> forall (x0 x1 x2 x3 y0 y1 y2 y3 eps : K),
   gen_ncc eps [x0; x1; x2; x3] [y0; y1; y2; y3] = [ncc_one eps [x0; x1; x2; x3] [y0; y1; y2; y3]] /\
